@@ -770,13 +770,13 @@ EGLPNUM_TYPENAME_QSLIB_INTERFACE EGLPNUM_TYPENAME_QSdata *EGLPNUM_TYPENAME_QScop
 	p2->factorok = 0;
 	p2->simplex_display = p->simplex_display;
 	p2->simplex_scaling = p->simplex_scaling;
-	EGLPNUM_TYPENAME_EGlpNumClearVar (p2->pricing->htrigger);
-	*(p2->pricing) = *(p->pricing);
-	/* I added this line because copying the EGLPNUM_TYPENAME_heap (as a pointer) doesn't make any
-	 * sense ! */
-	EGLPNUM_TYPENAME_ILLheap_init (&(p2->pricing->h));
-	EGLPNUM_TYPENAME_EGlpNumInitVar (p2->pricing->htrigger);
-	EGLPNUM_TYPENAME_EGlpNumCopy (p2->pricing->htrigger, p->pricing->htrigger);
+	/* copy the pricing choices only: the norm and scale arrays, the partial
+	 * pricing buckets and the heap of p->pricing belong to p and are rebuilt
+	 * for the copy when it is solved */
+	p2->pricing->pI_price = p->pricing->pI_price;
+	p2->pricing->pII_price = p->pricing->pII_price;
+	p2->pricing->dI_price = p->pricing->dI_price;
+	p2->pricing->dII_price = p->pricing->dII_price;
 
 	if (p->qslp->intmarker != 0)
 	{
